@@ -20,7 +20,11 @@ import (
 	"grits/process"
 )
 
-func seqOne(text string, timeoutMs int) (verdict string, out string) {
+// the environment re-used across the programs of a history in `seqre` mode (InitializeProcesses
+// accepts an existing environment and re-initialises it: the pattern of a long-lived driver)
+var sharedRE *process.RuntimeEnvironment
+
+func seqOne(text string, timeoutMs int, reuse bool) (verdict string, out string) {
 	realStdout := os.Stdout
 	r, w, err := os.Pipe()
 	if err != nil {
@@ -49,6 +53,14 @@ func seqOne(text string, timeoutMs int) (verdict string, out string) {
 	if len(assumed) > 0 {
 		return "ACCEPT-OPEN", ""
 	}
+	if reuse {
+		if sharedRE == nil {
+			sharedRE = &process.RuntimeEnvironment{UseMonitor: false, Color: false, ExecutionVersion: process.NORMAL_ASYNC, Typechecked: true, Delay: 0, Quiet: false}
+		}
+		sharedRE.GlobalEnvironment = env
+		sharedRE = process.InitializeProcesses(procs, nil, nil, sharedRE)
+		return "RAN", ""
+	}
 	re, _, cancel := process.NewRuntimeEnvironment()
 	re.GlobalEnvironment = env
 	re.UseMonitor = false
@@ -69,13 +81,16 @@ func seqOne(text string, timeoutMs int) (verdict string, out string) {
 	}
 }
 
-func seqCmd(args []string) {
+func seqCmd(args []string) { seqRun(args, false) }
+func seqReCmd(args []string) { seqRun(args, true) }
+
+func seqRun(args []string, reuse bool) {
 	timeoutMs := 250
 	if len(args) > 1 {
 		fmt.Sscanf(args[1], "%d", &timeoutMs)
 	}
 	for _, c := range readCases(args[0]) {
-		v, out := seqOne(c.text, timeoutMs)
+		v, out := seqOne(c.text, timeoutMs, reuse)
 		var labels []string
 		for _, l := range strings.Split(out, "\n") {
 			if strings.HasPrefix(l, "> ") {
@@ -87,4 +102,4 @@ func seqCmd(args []string) {
 	fmt.Fprintln(os.Stdout, "@@SEQ-DONE")
 }
 
-func init() { register("seq", seqCmd) }
+func init() { register("seq", seqCmd); register("seqre", seqReCmd) }
